@@ -45,7 +45,11 @@ def blocking_case(chk, s, rng, c, prev):
     if a["what"] == "-":            # refused locally: nothing may have been sent
         r = [l for l in out if l.startswith("R sign")]
         if sent or not r or "rc=0x0" in r[0].split():
-            chk.violation("deprecated-algorithm-not-refused", "KSI_createSignature with a %s hash: %s" % (req["alg"], out[-1][:200]), dict(log=s.log[-20:]))
+            chk.violation("deprecated-algorithm-not-refused:%s" % ("sent" if sent else "accepted"), "%s with a %s hash at level %d: %s" % (
+                          "KSI_Signature_signAggregated" if req["api"] == "aggregated" else "KSI_createSignature", req["alg"], level, ("a request was SENT: " if sent else "") + (out[-1:] or [""])[0][:200]), dict(log=s.log[-20:]))
+        guard = 0
+        while out and out[-1].startswith("Q recv") and guard < 4:      # a request that should never have been sent is waiting for its reply: end the exchange
+            s.cmd("PEERCLOSE"); out = s.cmd("GO"); guard += 1
         return prev
     if not out or not out[-1].startswith("Q recv"):
         chk.violation("no-request", "signing did not send a request / did not wait for the reply: %s" % [x[:100] for x in out], dict(log=s.log[-20:]))
@@ -85,7 +89,10 @@ def http_case(chk, s, rng, c, prev):
     if a["what"] == "-":
         r = [l for l in out if l.startswith("R sign")]
         if posts or not r or "rc=0x0" in r[0].split():
-            chk.violation("deprecated-algorithm-not-refused:http", "signing a %s hash over HTTP: %s" % (req["alg"], out[-1][:200]), dict(log=s.log[-20:]))
+            chk.violation("deprecated-algorithm-not-refused:http", "signing a %s hash at level %d over HTTP: %s" % (req["alg"], level, ("a request was PERFORMED: " if posts else "") + (out[-1:] or [""])[0][:200]), dict(log=s.log[-20:]))
+        guard = 0
+        while out and out[-1].startswith("Q http") and guard < 4:
+            s.cmd("HTTPERR 7"); out = s.cmd("GO"); guard += 1
         return prev
     if not out or not out[-1].startswith("Q http"):
         chk.violation("no-request:http", "signing over HTTP did not perform a request: %s" % [x[:100] for x in out], dict(log=s.log[-20:])); return prev
